@@ -227,6 +227,30 @@ def run(rep, tier):
         else:
             rep.ok("C18.R3", fn, "%s relocates inline callables through a typed operation" % name)
 
+    # swap: after the buffers were exchanged each wrapper's object pointer is re-pointed into its *own* buffer,
+    # independently of the other one (both may hold inline callables) - truth table over the two tests
+    sw = fb("swap")[0]
+    A = "&f.storage == this->object"
+    B = "&this->storage == f.object"
+    leaves_sw = set(cond_atoms(blk.cond)[0] for blk in sw.blocks.values() if blk.cond is not None)
+    if A not in leaves_sw or B not in leaves_sw:
+        raise AnalysisBroken("function_base::swap: pointer fix-up tests not found (conditions: %s)" % sorted(leaves_sw))
+    fixa = lambda e: e.get("k") == "write" and P(e["lhs"]) == "this->object" and T(strip(e.get("rhs"))) == "&this->storage"
+    fixb = lambda e: e.get("k") == "write" and P(e["lhs"]) == "f.object" and T(strip(e.get("rhs"))) == "&f.storage"
+    mism = []
+    for av in (True, False):
+        for bv in (True, False):
+            for evs, end in eval_walk(sw, sw.entry, atom_env={A: av, B: bv}):
+                seq = [e for _, _, e in evs]
+                if any(fixa(e) for e in seq) != av or any(fixb(e) for e in seq) != bv:
+                    mism.append((av, bv))
+    if mism:
+        rep.bad("C18.R3", sw, sw.loc, "swap-fixup", "function_base::swap does not re-point both object pointers independently (this inline, other inline) = %s: "
+                "after swapping (or move-assigning) two wrappers that both hold inline callables one of them points into the other's buffer - "
+                "wrong callable invoked, one target destroyed twice and one never" % sorted(set(mism)))
+    else:
+        rep.ok("C18.R3", sw, "swap re-points each object pointer into its own buffer exactly when it pointed into the other one (4 valuations)")
+
     n, failed = witness(rep, "C18.R4", driver("../witness/C18.cpp"))
     for _ in range(n - failed):
         rep.ok("C18.R4", "witness:C18.cpp", "static_assert holds")
